@@ -5,6 +5,7 @@ import NbioVerif.Lemmas.C06Chain
 import NbioVerif.Lemmas.BodyReader
 import NbioVerif.Lemmas.BodyOwn
 import NbioVerif.Lemmas.C06Bridge
+import NbioVerif.Lemmas.C08Held
 /-! C08: parser robustness and bounds (model level).
 
 * `c08_no_hang`        the Go-shaped index loop never runs out of fuel (fuel = |buf|+1), i.e. the
@@ -157,6 +158,33 @@ theorem c08_body_bound (g : Cfg) (st : P) (cache data : Bytes) (acc : List Ev) (
     (fun st d s' u evs hi hs => blockDone_bodyInv g st d s' u evs hi hs) st cache data acc hI acc' st' cache' h
 
 theorem c08_body_bound_init (g : Cfg) : BodyInv g (init g) := by intro _; simp [init]
+
+/-- C08 (body bound, event level): `bodyHeld` is not a ghost — after every `Parse` call of every chain from a fresh
+    parser (any segmentation, any ReadLimit) it equals the number of body bytes handed to `OnBody` since the last
+    `OnComplete` in the events emitted so far. -/
+theorem c08_body_held_is_event_sum (g : Cfg) (limit : Nat) (segs : List Bytes) acc' st' c'
+    (h : feedAllL (machine g) limit (init g) [] segs [] = ⟨acc', .inl (st', c')⟩) :
+    st'.bodyHeld = heldOf 0 acc' :=
+  feedAllL_held g limit segs acc' st' c' h
+
+/-- non-vacuity: two reads ending inside a chunked body — three body bytes handed over, message not complete -/
+example :
+    let gs : Cfg := { isClient := false, maxBody := 0, urlOk := fun _ => true, protoOk := fun _ => true }
+    let r := feedAllL (machine gs) 0 (init gs) []
+      [str "POST / HTTP/1.1\r\nTransfer-Encoding: chunked\r\n\r\n2\r\nab\r\n", str "5\r\nc"] []
+    heldOf 0 r.evs = 2 ∧ (match r.fin with | .inl (p, _) => p.bodyHeld | .inr _ => 99) = 2 := by
+  set_option maxRecDepth 100000 in decide
+
+/-- C08 (body bound, event level): with MaxHTTPBodySize set, after every `Parse` call of every chain from a fresh parser
+    the body bytes handed to `OnBody` for the message under construction never exceed it. -/
+theorem c08_body_bound_events (g : Cfg) (hm : g.maxBody > 0) (limit : Nat) (segs : List Bytes) acc' st' c'
+    (h : feedAllL (machine g) limit (init g) [] segs [] = ⟨acc', .inl (st', c')⟩) :
+    heldOf 0 acc' ≤ g.maxBody := by
+  rw [← feedAllL_held g limit segs acc' st' c' h]
+  exact feedAllL_inv2 (machine g) (fun st _ => BodyInv g st)
+    (fun st tok c s' u evs _ hI hs => byteStep_bodyInv g st tok c s' u evs hI hs)
+    (fun st d s' u evs _ hI hs => blockDone_bodyInv g st d s' u evs hI hs)
+    limit segs (init g) [] [] (c08_body_bound_init g) acc' st' c' h hm
 
 /-- C08: accepted Content-Length fields all carry the same value (trailing spaces aside), it is `[+-]?DIGIT+` and
     non-negative; empty, non-numeric, negative, overflowing (≥ 2^62) and differing values are errors. -/
